@@ -345,13 +345,21 @@ def seq_case_1(kind, acc, tmp, SEQ):
     variants = [({}, []), ({'scale': 2, 'border': 1}, ['--scale', '2', '--border', '1'])]
     if kind in ('txt', 'ans'):
         variants[1] = ({'border': 1}, ['--border', '1'])
-    for opts, flags in variants:
-        base = 'name' if not opts else 'na.me.v2'
+    variants.append(({}, []))
+    variants.append(({}, []))
+    for vi, (opts, flags) in enumerate(variants):
+        # (file names with characters that mean something to str.format / % formatting)
+        base = ('name', 'na.me.v2', '100% {0} %d', 'a%20b{}')[vi]
         d = tempfile.mkdtemp(dir=tmp, suffix='.d' if opts else '')
-        seq.save(os.path.join(d, base + '.' + kind), **opts)
+        try:
+            seq.save(os.path.join(d, base + '.' + kind), **opts)
+        except Exception as e:
+            acc.eval(('seq', kind, vi), nontrivial=True, outcome='exc', state=('seq', kind, vi))
+            acc.violation('sequence-file-names', 'sequence saved to %r raised %s: %s' % (base + '.' + kind, C.exc_name(e), str(e)[:60]), case)
+            continue
         names = sorted(os.listdir(d))
         want = ['%s-%02d-%02d.%s' % (base, n, i, kind) for i in range(1, n + 1)]
-        acc.eval(('seq', kind, tuple(opts)), nontrivial=True, outcome=(names == want), state=('seq', kind, tuple(opts)))
+        acc.eval(('seq', kind, vi), nontrivial=True, outcome=(names == want), state=('seq', kind, vi))
         if names != want or n < 2:
             acc.violation('sequence-file-names', 'sequence of %d symbols saved to %s.%s wrote %r, expected %r' % (n, base, kind, names, want), case)
             continue
